@@ -591,3 +591,80 @@ ssize_t write(int fd, const void* buf, size_t n) {
 }
 
 } // extern "C"
+
+// ---------------------------------------------------------------- sd-bus ---
+// systemd_restart talks to the system bus through these four entry points; in
+// the harness no bus is ever contacted (DESIGN.md 3.2).
+#include <systemd/sd-bus.h>
+extern "C" {
+static int vp_fake_bus, vp_fake_msg;
+int sd_bus_open_system(sd_bus** ret) {
+  *ret = reinterpret_cast<sd_bus*>(&vp_fake_bus);
+  vp::Ev e;
+  e.k = "sdbus";
+  e.s = "open_system";
+  vp::g.log(e);
+  return 0;
+}
+int sd_bus_call_method(
+    sd_bus* /*bus*/,
+    const char* /*destination*/,
+    const char* /*path*/,
+    const char* /*interface*/,
+    const char* member,
+    sd_bus_error* ret_error,
+    sd_bus_message** reply,
+    const char* types,
+    ...) {
+  std::string a0, a1;
+  if (types && !strcmp(types, "ss")) {
+    va_list ap;
+    va_start(ap, types);
+    const char* s0 = va_arg(ap, const char*);
+    const char* s1 = va_arg(ap, const char*);
+    va_end(ap);
+    a0 = s0 ? s0 : "";
+    a1 = s1 ? s1 : "";
+  }
+  int r = 0;
+  if (vp::g.on_sdbus) {
+    vp::Bypass b;
+    r = vp::g.on_sdbus(member ? member : "", a0);
+  }
+  vp::Ev e;
+  e.k = "sdbus";
+  e.s = member ? member : "";
+  e.s2 = a0;
+  e.p = a1;
+  e.ret = r;
+  vp::g.log(e);
+  if (r < 0) {
+    if (ret_error) {
+      ret_error->name = nullptr;
+      ret_error->message = "vp: injected failure";
+      ret_error->_need_free = 0;
+    }
+    return r;
+  }
+  *reply = reinterpret_cast<sd_bus_message*>(&vp_fake_msg);
+  return 1;
+}
+int sd_bus_message_read(sd_bus_message* /*m*/, const char* types, ...) {
+  if (types && !strcmp(types, "o")) {
+    va_list ap;
+    va_start(ap, types);
+    const char** out = va_arg(ap, const char**);
+    va_end(ap);
+    *out = "/org/freedesktop/systemd1/job/1";
+  }
+  return 1;
+}
+void sd_bus_error_free(sd_bus_error* /*e*/) {}
+sd_bus_message* sd_bus_message_unref(sd_bus_message* /*m*/) {
+  return nullptr;
+}
+void sd_bus_close(sd_bus* /*bus*/) {}
+sd_bus* sd_bus_unref(sd_bus* /*bus*/) {
+  return nullptr;
+}
+}
